@@ -517,6 +517,20 @@ Definition partial_application_url (e : env) (s h p : option text) : res text :=
 Definition application_url (e : env) : res text :=
   rlet sn := quoted_script_name e in Ok (webob_host_url e ++ sn).
 
+(* ------------------------------------------------------------------ one request object over its life
+   The environment of a request changes while it is handled (path_info_pop into a mounted application, an
+   assignment to script_name, a rewritten Host) and URLs are generated in between.  Whether URL generation keeps
+   anything on the request is a regenerated fact; [memo] is what a memoising request would have kept from its
+   first use. *)
+Definition memo_after (hist : list env) : option (res text) :=
+  match hist with [] => None | e0 :: _ => Some (quoted_script_name e0) end.
+Definition quoted_script_name_h (hist : list env) (e : env) : res text :=
+  if url_helpers_keep_no_request_state then quoted_script_name e
+  else match memo_after hist with Some r => r | None => quoted_script_name e end.
+(* what a request that froze its first answer would say *)
+Definition quoted_script_name_frozen (hist : list env) (e : env) : res text :=
+  match memo_after hist with Some r => r | None => quoted_script_name e end.
+
 (* ------------------------------------------------------------------ reference decoder (urllib.parse) *)
 Fixpoint lstrip_c0 (s : text) : text :=
   match s with x :: r => if x <=? 32 then lstrip_c0 r else s | [] => [] end.
